@@ -199,9 +199,9 @@ func c03Start(dir string, bootstrap bool) (*c03Node, error) {
 	}
 	ly := &c03Layer{ln}
 	s := New(&Config{DBConf: NewDBConfig(), Dir: dir, ID: c03NodeID, Logger: log.New(io.Discard, "", 0)}, ly)
-	s.HeartbeatTimeout = 60 * time.Millisecond
-	s.ElectionTimeout = 60 * time.Millisecond
-	s.LeaderLeaseTimeout = 60 * time.Millisecond
+	s.HeartbeatTimeout = 30 * time.Millisecond
+	s.ElectionTimeout = 30 * time.Millisecond
+	s.LeaderLeaseTimeout = 30 * time.Millisecond
 	s.CommitTimeout = 5 * time.Millisecond
 	s.RaftLogLevel = "OFF"
 	s.SnapshotReapThreshold = 1 << 20 // reaping only when the history says so
@@ -285,6 +285,7 @@ type c03Run struct {
 	model   *sql.DB
 	h       c03History
 	acked   int
+	stmts   []string // every acknowledged statement, in order
 	history string
 }
 
@@ -448,6 +449,82 @@ func (r *c03Run) judge(res c03Restarted, label, kind, where, stateDir string, ne
 	return true
 }
 
+var c03AfterStmts = []string{"INSERT INTO t(v) VALUES('after-the-crash')", "UPDATE c SET n = n + 1 WHERE k = 'a'"}
+
+// aftermath: the node recovered from the crash state in dir must keep working.
+// One more write is acknowledged, a snapshot is taken, the node is closed and
+// restarted once through the restore path (fingerprint removed with
+// Store.ForceSnapshotRestore) and once more as it is; both times the database
+// must be the model plus that write. This is C03 for the history continued
+// after the crash (catches recovery that leaves stale staging/snapshot files).
+func (r *c03Run) aftermath(label, where, stateDir string) {
+	fail := func(stage string, err error) {
+		if errors.Is(err, errC03Infra) {
+			r.rec.Label("inconclusive:aftermath-" + stage)
+			return
+		}
+		sig := fmt.Sprintf("C03/aftermath-%s-failed/%s", stage, where)
+		if r.rec.KnownHit(sig, "node recovered from a crash does not keep working") {
+			return
+		}
+		r.rt.Fatalf("%s", r.rec.Violation(sig, "history {%s}, crash state %s, then write+snapshot+restart: %s failed: %v; crash state: %s", r.history, label, stage, err, vcrash.Listing(stateDir)))
+	}
+	node, err := c03Start(r.dir, false)
+	if err != nil {
+		fail("start", err)
+		return
+	}
+	if err := node.exec(c03AfterStmts); err != nil {
+		node.stop()
+		fail("write", err)
+		return
+	}
+	if err := node.snapshot(0); err != nil {
+		node.stop()
+		fail("snapshot", err)
+		return
+	}
+	if err := node.stop(); err != nil {
+		fail("close", fmt.Errorf("%w: %v", errC03Infra, err))
+		return
+	}
+	m, err := vsql.OpenMem()
+	if err != nil {
+		return
+	}
+	defer m.Close()
+	for _, q := range append(append([]string{}, r.stmts...), c03AfterStmts...) {
+		if _, err := m.Exec(q); err != nil {
+			return
+		}
+	}
+	want, err := vsql.DumpDB(m)
+	if err != nil {
+		return
+	}
+	for _, mode := range []string{"forced-restore", "plain"} {
+		if mode == "forced-restore" {
+			if err := node.s.ForceSnapshotRestore(); err != nil {
+				return
+			}
+		}
+		res := c03Restart(r.dir, nil)
+		if res.err != nil {
+			fail("restart-"+mode+"-"+res.stage, res.err)
+			return
+		}
+		r.rec.Label("aftermath:restart=" + res.path)
+		if res.dump != want {
+			sig := fmt.Sprintf("C03/aftermath-content-differs/%s/%s", mode, where)
+			if r.rec.KnownHit(sig, "write acknowledged after crash recovery is wrong after the next restart") {
+				return
+			}
+			r.rt.Fatalf("%s", r.rec.Violation(sig, "history {%s}, crash state %s, then write+snapshot+close+restart (%s, via %s): database differs from acknowledged statements; crash state: %s\n--- want\n%s--- got\n%s",
+				r.history, label, mode, res.path, vcrash.Listing(stateDir), c03Short(want), c03Short(res.dump)))
+		}
+	}
+}
+
 func c03Short(s string) string {
 	var out []string
 	for _, l := range strings.Split(s, "\n") {
@@ -501,6 +578,7 @@ func TestVerif_C03_Crash(t *testing.T) {
 				}
 			}
 			r.acked += len(stmts)
+			r.stmts = append(r.stmts, stmts...)
 		}
 		apply(c03Schema)
 
@@ -615,6 +693,13 @@ func TestVerif_C03_Crash(t *testing.T) {
 			}
 			res := c03Restart(dir, nil)
 			held := r.judge(res, cs.Label, cs.Kind, where, cs.Dir, false)
+			if held && nontrivial && (inside-1)%h.NestStride == (h.NestOff+1)%h.NestStride {
+				if err := vcrash.ReplaceTree(cs.Dir, dir); err != nil {
+					rt.Skip("restore failed")
+				}
+				rec.Label("aftermath:where=" + where)
+				r.aftermath(cs.Label, where, cs.Dir)
+			}
 			if held && nontrivial && (inside-1)%h.NestStride == h.NestOff {
 				// crash again during the restart from this state
 				if err := vcrash.ReplaceTree(cs.Dir, dir); err != nil {
